@@ -113,6 +113,36 @@ func c14GenApply(g *cpGen, b *strings.Builder) {
 		fmt.Fprintf(b, "\n  (%s, %s)", leanStr(r.name), leanStr(r.recv))
 	}
 	b.WriteString("]\n\n")
+	// the views: methods of Project that hand out model state which is not a project (they read; what they return may
+	// share the receiver's maps by design — the oracle's "Accessors" step checks that the receiver is left as it was)
+	pureRes := map[string]bool{"[]string": true, "string": true, "error": true, "bool": true, "[]byte": true}
+	var views []row
+	for k, fd := range g.methods {
+		if !strings.HasPrefix(k, "Project.") || returnsProject(fd) || fd.Type.Results == nil {
+			continue
+		}
+		var rs []string
+		model := false
+		for _, r := range fd.Type.Results.List {
+			t := norm(src(r.Type))
+			rs = append(rs, t)
+			if !pureRes[t] {
+				model = true
+			}
+		}
+		if model {
+			views = append(views, row{k, strings.Join(rs, ", ")})
+		}
+	}
+	sort.Slice(views, func(i, j int) bool { return views[i].name < views[j].name })
+	b.WriteString("/-- methods of Project that return model state other than a project: (name, result types) -/\ndef projectViews : List (String × String) := [")
+	for i, r := range views {
+		if i > 0 {
+			b.WriteString(",")
+		}
+		fmt.Fprintf(b, "\n  (%s, %s)", leanStr(r.name), leanStr(r.recv))
+	}
+	b.WriteString("]\n\n")
 	// the glue
 	b.WriteString("/-- normalised source text of the marshaller option glue -/\ndef marshalSources : List (String × String) := [")
 	first := true
